@@ -355,12 +355,17 @@ def main(tier: str, seed: int) -> int:
     four = [list(x) for x in itertools.product(alphabet, repeat=4)]
     seqs += four if tier == "thorough" else rng.sample(four, 100)
     directed = [[st("Init"), st("MCreateFile", '"f","a.txt"')] + q + tail for q in seqs]
+    n_explore = len(traces)  # (the exploration traces: executed requests with digests - the ones the self-test corrupts)
     traces += explore_fs_histories(fs_behs + directed, rng, chk)
     # (quick: one facet per run, rotating with the seed - C01, C11 and C14 run all three tours on every change)
     traces += explore_tours(seed, chk, visits=1 if tier == "quick" else 3,
                             facets=(("svc", "app", "fs")[seed % 3],) if tier == "quick" else ("svc", "app", "fs"))
     res = tlc.validate("RequestsTrace", traces)
-    common.judge_traces(chk, "Requests", traces, res, sig_fn, selftest="RequestsTrace")
+    # the binding self-test corrupts the exploration traces (every event an executed request): in the probe-only and
+    # tick-heavy history traces most fields are not constrained by any clause, so corrupting THEM shows nothing
+    part = lambda r, a, b: {"results": r["results"][a:b], "stuck": r["stuck"][a:b], "states": 0, "distinct": 0, "wall_s": 0}  # noqa
+    common.binding_selftest(chk, "RequestsTrace", traces[:n_explore], part(res, 0, n_explore))
+    common.judge_traces(chk, "Requests", traces, res, sig_fn)
     for tr in traces[:2]:
         chk.sample({"cfg": tr["cfg"], "requests": tr["meta"]["requests"][:4], "events": tr["ev"][:4]})
     chk.assumptions += [
